@@ -199,6 +199,8 @@ def register_cache(reg, stubs, world):
                     z3.Length(keys_of(V.m(eng.val(s1, data)))) == 0))),
                 ('rereads-whenever-forced-uncached-or-newer', z3.Implies(
                     z3.And(fs_exists(f), z3.Not(fs_eacces(f)), reload_), reloaded == TRUE)),
+                ('a-due-reread-of-an-unreadable-file-does-not-return', z3.Implies(z3.And(fs_exists(f), reload_),
+                                                                                 z3.Not(fs_eacces(f)))),
                 ('a-reread-returns-and-caches-the-current-content', z3.Implies(
                     z3.And(fs_exists(f), reloaded == TRUE),
                     z3.And(data == V.str(fs_content(f)),
@@ -206,7 +208,7 @@ def register_cache(reg, stubs, world):
                            z3.Select(em1, z3.StringVal('mtime')) == V.float(fs_mtime(f))))),
                 ('the-entry-for-the-file-is-the-old-one-or-a-fresh-dict', z3.Implies(fs_exists(f), z3.And(
                     e1 != ABSENT, V.is_obj(e1), clsof(V.ref(e1)) == eng.cid('dict'),
-                    z3.Or(z3.And(e0 != ABSENT, e1 == e0), V.ref(e1) >= st.ap)))),
+                    z3.Or(z3.And(e0 != ABSENT, e1 == e0), z3.And(V.ref(e1) >= st.ap, V.ref(e1) < s1.ap))))),
                 ('otherwise-serves-the-cached-text-untouched', z3.Implies(
                     z3.And(fs_exists(f), reloaded != TRUE),
                     z3.And(reloaded == FALSE, z3.Not(reload_), data == z3.Select(em0, z3.StringVal('data')), e1 == e0,
@@ -428,7 +430,7 @@ def register_chain(reg, stubs, world):
         e1 = z3.Select(m1, k)
         return [('only-for-parseable-text', parse_ok(d)),
                 ('record-stays-a-dict-object', z3.And(V.is_obj(F1), clsof(V.ref(F1)) == eng.cid('dict'), V.is_dict(eng.val(s1, F1)))),
-                ('overwrite-starts-a-new-record', z3.Implies(ow, z3.And(V.ref(F1) >= st.ap, qforall([k], z3.Implies(
+                ('overwrite-starts-a-new-record', z3.Implies(ow, z3.And(V.ref(F1) >= st.ap, V.ref(F1) < s1.ap, qforall([k], z3.Implies(
                     z3.Select(P, k) == ABSENT, e1 == ABSENT))))),
                 ('update-keeps-the-record-object-and-its-other-entries', z3.Implies(z3.Not(ow), z3.And(F1 == F0, qforall([k], z3.Implies(
                     z3.Select(P, k) == ABSENT, e1 == z3.Select(m0, k)))))),
@@ -625,31 +627,34 @@ def register_chain2(reg, stubs, world):
 
         def applied(text):
             P = parsed_of(text)
-            return z3.And(
-                z3.Implies(ow, z3.And(
+            did = out.value == TRUE
+            inP = lambda kk: z3.Select(P, kk) != ABSENT
+            return [
+                ('applying-sets-the-flags', z3.Implies(did, z3.And(
+                    eng.get(s1, s, '_need_check_rule') == TRUE, eng.get(s1, s, 'use_conf') == TRUE))),
+                ('overwrite-publishes-a-fresh-rule-store-with-the-default-rule', z3.Implies(z3.And(did, ow), z3.And(
                     V.ref(R1) >= st.ap, clsof(V.ref(R1)) == eng.cid('Rules'),
-                    eng.get(s1, R1, 'default_rule') == eng.get(st, s, 'default_rule'),
-                    qforall([k], (z3.Select(rm1, k) != ABSENT) == (z3.Select(P, k) != ABSENT)),
-                    V.ref(F1) >= st.ap,
-                    qforall([k], (z3.Select(fm1, k) != ABSENT) == (z3.Select(P, k) != ABSENT)))),
-                z3.Implies(z3.Not(ow), z3.And(
-                    R1 == R0, F1 == F0,
-                    qforall([k], (z3.Select(rm1, k) != ABSENT) == z3.Or(z3.Select(P, k) != ABSENT, z3.Select(rm0, k) != ABSENT)),
-                    qforall([k], (z3.Select(fm1, k) != ABSENT) == z3.Or(z3.Select(P, k) != ABSENT, z3.Select(fm0, k) != ABSENT)),
-                    qforall([k], z3.Implies(z3.Select(P, k) == ABSENT, z3.And(z3.Select(rm1, k) == z3.Select(rm0, k),
-                                                                            z3.Select(fm1, k) == z3.Select(fm0, k)))))),
-                eng.get(s1, s, '_need_check_rule') == TRUE, eng.get(s1, s, 'use_conf') == TRUE)
+                    eng.get(s1, R1, 'default_rule') == eng.get(st, s, 'default_rule')))),
+                ('overwrite-leaves-exactly-the-names-in-the-text-in-the-rule-store', z3.Implies(z3.And(did, ow),
+                    qforall([k], (z3.Select(rm1, k) != ABSENT) == inP(k)))),
+                ('overwrite-starts-a-fresh-record-of-exactly-the-names-in-the-text', z3.Implies(z3.And(did, ow), z3.And(
+                    V.ref(F1) >= st.ap, qforall([k], (z3.Select(fm1, k) != ABSENT) == inP(k))))),
+                ('update-keeps-the-store-and-record-objects', z3.Implies(z3.And(did, z3.Not(ow)), z3.And(R1 == R0, F1 == F0))),
+                ('update-adds-the-names-in-the-text-to-the-rule-store', z3.Implies(z3.And(did, z3.Not(ow)),
+                    qforall([k], z3.And((z3.Select(rm1, k) != ABSENT) == z3.Or(inP(k), z3.Select(rm0, k) != ABSENT),
+                                        z3.Implies(z3.Not(inP(k)), z3.Select(rm1, k) == z3.Select(rm0, k)))))),
+                ('update-adds-the-names-in-the-text-to-the-record', z3.Implies(z3.And(did, z3.Not(ow)),
+                    qforall([k], z3.And((z3.Select(fm1, k) != ABSENT) == z3.Or(inP(k), z3.Select(fm0, k) != ABSENT),
+                                        z3.Implies(z3.Not(inP(k)), z3.Select(fm1, k) == z3.Select(fm0, k))))))]
         return [('returns-a-boolean', V.is_bool(out.value)),
                 ('applies-the-file-whenever-it-had-to-be-re-read-or-the-store-is-empty', z3.Implies(must_apply, out.value == TRUE)),
                 ('otherwise-nothing-is-touched', z3.Implies(out.value == FALSE, z3.And(
                     R1 == R0, F1 == F0, rm1 == rm0, fm1 == fm0))),
                 # the text that was applied is the one the cache holds for the file afterwards (nothing for a missing file);
                 # it is the file's current content whenever a re-read was due
-                ] + ([('applying-replaces-or-extends-the-stores-with-exactly-the-names-in-the-text',
-                       z3.Implies(out.value == TRUE, applied(text_after))),
-                      ('the-text-applied-is-current-whenever-a-re-read-was-due',
-                       z3.Implies(z3.And(fs_exists(p), must_reread), text_after == fs_content(p)))]
-                     if __import__('os').environ.get('VERIF_WIP') == '1' else []) + [
+                ] + applied(text_after) + [
+                ('the-text-applied-is-current-whenever-a-re-read-was-due',
+                 z3.Implies(z3.And(fs_exists(p), must_reread), text_after == fs_content(p))),
                 ('registry-untouched', z3.And(eng.get(s1, s, 'registered_rules') == G0,
                                               eng.val(s1, G0) == eng.val(st, G0)))]
     LPF_MODS = ('rules', 'file_rules', 'use_conf', '_need_check_rule', '$val', '_name', '_check_str', '_check', '_description',
@@ -660,10 +665,7 @@ def register_chain2(reg, stubs, world):
                      frame=lambda cx, f, o, n: [], allocates=True, heap_axioms=tree_axioms, props=('C10', 'C20'),
                      assumptions=('rule values in policy files are strings (the list-of-lists form is outside the loader-chain '
                                   'contracts)',
-                                  'NOT DISCHARGED (stated in the contract file, generated only with VERIF_WIP=1): that the stores '
-                                  'afterwards hold exactly the names of the text the cache holds for the file, and that this text is '
-                                  'the current content whenever a re-read was due; z3 leaves both at unknown (a chain of four callee '
-                                  'frames); the bounded C09/C10 stand-ins decide them'),
+                                  ),
                      doc='the file is applied exactly when the cache reports a re-read (forced, uncached, newer, missing) or the '
                          'rule store is empty; applying it replaces (overwrite) or extends (update) the rule store and the '
                          'record of file-defined names with exactly the names in the text; otherwise nothing is touched'))
